@@ -31,7 +31,9 @@ theorem gen_word_init_eq (nv : Nat) (n k : Int) (wt : String) (out : Except Err 
       · exact hneg h
     rw [if_neg h', if_neg hneg]
     have hn : 0 ≤ n := by omega
-    simp only [range_ints n hn, combos_map, combosRepl_map, permsK_map, productRep_map]
+    have hk : 0 ≤ k := by omega
+    simp only [Py.itertoolsR_nonneg k hk, Py.ok_bind, range_ints n hn, combos_map, combosRepl_map, permsK_map,
+      productRep_map]
     have hloop : ∀ seqs : List (List Nat),
         List.foldl (fun (st11 : Int × List (List Int) × List (List Int × Int)) (c : List Int) =>
             (st11.1 + 1, st11.2.1 ++ [c], Py.dictSet st11.2.2 c (st11.1 + 1)))
@@ -57,7 +59,7 @@ theorem gen_word_init_eq (nv : Nat) (n k : Int) (wt : String) (out : Except Err 
     · simp (config := { decide := true }) only [h4, if_true, if_false, Py.bound, Py.ok_bind, wordsSeqs]
       rw [hloop]
       simp [wordSelf, wordsSeqs]
-    · simp only [h1, h2, h3, h4, if_false, Py.bound, Py.error_bind]
+    · simp only [h1, h2, h3, h4, if_false, Py.bound, Py.error_bind, Py.ok_bind]
 
 /-- what the model keeps of a `WordOfIndicesVariables` object -/
 def wordGroup (self : WordOfIndicesVariables) (fmt : String) : Group :=
